@@ -150,6 +150,7 @@ type multiSim struct {
 	// governance proposals the operators of ALL nodes put on their approve list (proposals.json in each data directory)
 	approved map[string]json.RawMessage
 	// double-sign evidence used at earlier heights of the run (replayed later)
+	ethNonce     uint64 // next nonce of the Ethereum-wallet account
 	oldEvidence  []*bft.DoubleSignEvidence
 	v2           bool // protocol version 2
 	slashPending bool // the last certificate orders a slash: the next block begins with it
@@ -302,6 +303,23 @@ func (m *multiSim) oneHeight() (ok bool) {
 		}
 		bz, _ := lib.Marshal(tx)
 		raws = append(raws, bz)
+	}
+	// a transfer signed with an Ethereum wallet (RLP.V2 wrapper) whose protobuf wrapper is NOT in canonical form: the account is
+	// funded at height 2; from height 4 on the re-encoded wrapper is offered to the proposer's mempool every few heights
+	if h == 2 {
+		if tx, e := fsm.NewSendTransaction(A.valKeys[3], ethAccount(), 60000, 1, 1, 100, h, "eth"); e == nil {
+			bz, _ := lib.Marshal(tx)
+			raws = append(raws, bz)
+		}
+	}
+	if h >= 4 && m.rng.Intn(3) == 0 {
+		if w := ethWrapped(A.accKeys[1].PublicKey().Address(), uint64(7+m.rng.Intn(5)), m.ethNonce, true); w != nil {
+			raws = append(raws, nonCanonical(w))
+			if m.rng.Intn(2) == 0 { // and sometimes the canonical one as well: it executes and moves the nonce
+				raws = append(raws, w)
+				m.ethNonce++
+			}
+		}
 	}
 	// governance: a parameter change whose value the parameter check refuses (it fails on delivery, after the handler has
 	// touched the parameters), or a legal one; an unstake behind it reads the parameter
